@@ -1,0 +1,16 @@
+//go:build verif && !(linux && amd64)
+
+package transforms32
+
+import "image"
+
+// VerifAsmAvailable reports whether this CPU can run the assembly kernels.
+func VerifAsmAvailable() bool { return false }
+
+// VerifUsePlatform restores the kernel selection made at start-up.
+func VerifUsePlatform() { VerifUseGo() }
+
+func VerifForwardDCT64Asm(x []float32)                       { forwardDCT64(x) }
+func VerifForwardDCT256Asm(x []float32)                      { forwardDCT256(x) }
+func VerifDCT2DHash64Asm(x []float32) [64]float32            { return DCT2DHash64(x) }
+func VerifYCbCrToGrayAsm(img *image.YCbCr, pixels []float32) { yCbCrToGrayAlt(img, pixels) }
